@@ -45,7 +45,9 @@ R(k, view, peer, local, fam, addpath, dir, count, nh, attrs, x) ==
 BmpRm ==
   {R("rm", vw, p, p, f, ap, d, c, nh, a, "") :
      vw \in Views, p \in Afs, f \in Families, ap \in BOOLEAN, d \in {"reach", "unreach", "eor"}, c \in Counts, nh \in Nhs, a \in AttrSz}
-BmpPeerUp   == {R("peerup", "pre", p, l, "ipv4", FALSE, "", "", "", "", x) : p \in Afs, l \in Afs, x \in {"nocaps", "caps", "locrib"}}
+BmpPeerUp   == {R("peerup", "pre", p, l, "ipv4", FALSE, "", "", "", "", x) : p \in Afs, l \in Afs, x \in {"nocaps", "caps", "locrib", "caps253", "caps254", "caps255", "caps256"}}
+\* capsN: an OPEN whose capabilities take exactly N octets; with the two octets of the parameter header, 253 is the most that the
+\* one-octet Optional Parameters Length can express (RFC 4271 4.2) - a larger OPEN may be refused, never written with a wrapped length
 BmpPeerDown == {R("peerdown", "pre", p, p, "ipv4", FALSE, "", "", "", "", x) :
                   p \in Afs, x \in {"localnotif", "localfsm", "remotenotif", "remoteunexpected", "deconfigured"}}
 BmpInit     == {R("initiation", "pre", "v4", "v4", "ipv4", FALSE, "", "", "", "", x) : x \in {"two", "none", "long"}}
@@ -54,7 +56,8 @@ MrtMp ==
      p \in Afs, f \in Families, ap \in BOOLEAN, d \in {"reach", "unreach"}, c \in Counts, nh \in Nhs, a \in AttrSz}
 TableDump ==
   {R("td", "pre", p, p, f, FALSE, "reach", c, nh, a, x) :
-     p \in Afs, f \in {"ipv4", "ipv6"}, c \in {"one", "few"}, nh \in Afs, a \in {"small", "big"}, x \in {"peers1", "peers3", "peersmixed", "localsrc"}}
+     p \in Afs, f \in {"ipv4", "ipv6"}, c \in {"one", "few"}, nh \in Afs \cup {"none"}, a \in {"small", "big"}, x \in {"peers1", "peers3", "peersmixed", "localsrc"}}
+\* nh = "none": paths without a next hop (a route originated through the API may have none): the entry is written without one
 
 Meaningful(e) ==
   /\ (e.k \in {"rm", "mrt"} /\ e.dir # "reach" => e.nh = "v4" /\ e.attrs = "small")
@@ -68,7 +71,7 @@ Meaningful(e) ==
   /\ (e.k \in {"rm", "mrt"} /\ e.count = "huge" => e.attrs = "small" /\ e.fam = "ipv4")
   /\ (e.k \in {"rm", "mrt"} /\ e.attrs = "over" => e.count = "one" /\ e.fam \in {"ipv4", "ipv6"})
 Cases == {e \in BmpRm \cup BmpPeerUp \cup BmpPeerDown \cup BmpInit \cup MrtMp : Meaningful(e)}
-         \cup {e \in TableDump : (e.fam = "ipv6" => e.nh = "v6")}
+         \cup {e \in TableDump : (e.fam = "ipv6" => e.nh \in {"v6", "none"})}
 
 \* ---------------------------------------------------------------- expectations
 BmpType(e) == CASE e.k = "rm" -> 0 [] e.k = "peerdown" -> 2 [] e.k = "peerup" -> 3 [] e.k = "initiation" -> 4 [] OTHER -> 99
@@ -80,8 +83,8 @@ MrtSubtype(e) ==
   CASE e.k = "mrt" -> IF e.addpath THEN 9 ELSE 4                     \* BGP4MP_MESSAGE_AS4_ADDPATH (RFC 8050) / BGP4MP_MESSAGE_AS4
     [] e.k = "td"  -> IF e.fam = "ipv4" THEN 2 ELSE 4                  \* RIB_IPV4_UNICAST / RIB_IPV6_UNICAST
     [] OTHER -> 0
-\* no monitored event of this universe may be refused: each of them is expressible in its format
-MayRefuse(e) == FALSE
+\* no other monitored event of this universe may be refused: each of them is expressible in its format
+MayRefuse(e) == e.k = "peerup" /\ e.x \in {"caps254", "caps255", "caps256"}
 
 \* ---------------------------------------------------------------- verdict
 Reason(e, o) ==
